@@ -53,13 +53,44 @@ def gen_cases(tier, seed):
         yield {"id": "h%d" % i, "seed": env.derive_seed(seed, ID, i), "nedits": 3 + i % 7, "itemspaces": i % 2 == 0}
     for j, name in enumerate(DIRECTED):
         yield {"id": "d%d" % j, "directed": j}
+    # every ordered tree of up to 5 spaces x every space of it as the deleted one
+    j = 0
+    for shape in _trees(5 if tier == "quick" else 6):
+        n = _count(shape)
+        for target in range(n):
+            yield {"id": "t%d" % j, "kind": "tree", "shape": shape, "target": target}
+            j += 1
+
+
+def _trees(maxn):
+    """ordered rooted trees (nested lists of children) with 1..maxn nodes"""
+    def forests(n):             # ordered forests with n nodes
+        if n == 0:
+            return [[]]
+        out = []
+        for k in range(1, n + 1):           # size of the first tree
+            for first in trees(k):
+                for rest in forests(n - k):
+                    out.append([first] + rest)
+        return out
+
+    def trees(n):
+        return forests(n - 1)               # a tree = root + forest of children
+    out = []
+    for n in range(1, maxn + 1):
+        out += trees(n)
+    return out
+
+
+def _count(shape):
+    return 1 + sum(_count(c) for c in shape)
 
 
 DIRECTED = ["c", "H", "U", "BB", "DD"]
 
 
 def expand(case):
-    if "ops" in case or "directed" in case:
+    if "ops" in case or "directed" in case or case.get("kind") == "tree":
         return case
     rnd = random.Random(case["seed"])
     g = ModelGen(rnd, itemspaces=case.get("itemspaces", False))
@@ -209,7 +240,122 @@ def reachable(w, h):
     return rerequest(o)
 
 
+def run_tree(case):
+    """a space tree of the given shape, every space with a cells, a reference, a deriving space and a reader in
+    another space; one space of the tree is deleted: every handle into the deleted subtree raises, nothing
+    computed from it stays, no container / base list / graph mentions it; the rest of the tree is untouched"""
+    reset_session()
+    vio = []
+    cnt = {"handle_pokes": 0, "must_raise": 0, "raised": 0, "answered_live": 0, "graph_scans": 0,
+           "deletion_triggers": 0, "handles": 0, "container_scans": 0, "tree_cases": 1}
+
+    def V(kind, sig, **d):
+        if len(vio) < 4:
+            vio.append({"kind": kind, "signature": sig, "detail": dict(d, shape=case["shape"], target=case["target"])})
+    m = mx.new_model("M")
+    T = m.new_space("T")
+    nodes = []          # (space, path list, parent index)
+
+    def build(parent, shape, name, pidx):
+        sp = parent.new_space(name)
+        idx = len(nodes)
+        path = (nodes[pidx][1] + [name]) if pidx is not None else [name]
+        nodes.append((sp, path, pidx))
+        sp.new_cells("c", formula="lambda x: x + %d" % (idx * 10))
+        sp.r = idx
+        for k, ch in enumerate(shape):
+            build(sp, ch, "N%d" % k, idx)
+        return idx
+    build(m, case["shape"], "R", None)
+    derived = []
+    for i, (sp, path, _p) in enumerate(nodes):
+        T.new_cells("t%d" % i, formula="lambda x: _model.%s.c(x) + _model.%s.r" % (".".join(path), ".".join(path)))
+        derived.append(m.new_space("D%d" % i, bases=sp))
+    for i in range(len(nodes)):
+        T.cells["t%d" % i](1)
+        derived[i].c(1)
+    handles = [(i, "space", sp) for i, (sp, _, _) in enumerate(nodes)] + \
+              [(i, "cells", sp.c) for i, (sp, _, _) in enumerate(nodes)]
+    cnt["handles"] = len(handles)
+    tgt = case["target"]
+    gone = set()
+    for i, (sp, path, pidx) in enumerate(nodes):
+        q = i
+        while q is not None:
+            if q == tgt:
+                gone.add(i)
+                break
+            q = nodes[q][2]
+    tsp, tpath, tp = nodes[tgt]
+    owner = m if tp is None else nodes[tp][0]
+    cnt["deletion_triggers"] += 1
+    try:
+        delattr(owner, tpath[-1])
+    except Exception as e:      # noqa
+        V("op-raised", "deleting a space raised %s" % type(e).__name__, msg=str(e)[:200])
+        return {"violations": vio, "counters": cnt, "nontrivial": True, "shape": "tree-%r-%d" % (case["shape"], tgt)}
+    for i, kind, o in handles:
+        us = [("name", lambda o=o: o.name), ("fullname", lambda o=o: o.fullname)]
+        us += [("cells", lambda o=o: list(o.cells)), ("spaces", lambda o=o: list(o.spaces))] if kind == "space" else \
+              [("call", lambda o=o: o(1)), ("len", lambda o=o: len(o)), ("formula", lambda o=o: o.formula)]
+        if i in gone:
+            cnt["must_raise"] += 1
+        for uname, fn in us:
+            cnt["handle_pokes"] += 1
+            try:
+                fn()
+                answered = True
+            except DeletedObjectError:
+                answered = False
+                cnt["raised"] += 1
+            except Exception as e:      # noqa
+                V("handle-other-error", "a handle neither works nor raises the deleted-object error (after del_space)",
+                  node=nodes[i][1], use=uname, error=type(e).__name__)
+                break
+            if answered and i in gone:
+                V("handle-answers", "a handle to a %s that no longer exists still answers (after del_space)" % kind,
+                  node=nodes[i][1], use=uname)
+                break
+            if not answered and i not in gone:
+                V("handle-dead", "a handle to a %s outside the deleted tree raises the deleted-object error" % kind,
+                  node=nodes[i][1], use=uname)
+                break
+            if answered:
+                cnt["answered_live"] += 1
+    # nothing computed from the deleted spaces stays; readers of the others keep their values
+    for i in range(len(nodes)):
+        held = dict(T.cells["t%d" % i])
+        if i in gone and held:
+            V("stale", "a value computed from a deleted object is still held (after del_space)", reader="T.t%d" % i,
+              node=nodes[i][1])
+        # (values computed from the spaces that remain may go as well: deleting a child changes the namespace of
+        # its parent; the statement does not forbid that)
+        d = derived[i]
+        cnt["container_scans"] += 1
+        if i in gone:
+            try:
+                if "c" in d.cells or "r" in d._own_refs or list(d.bases):
+                    V("container", "a container or base list holds a deleted object (after del_space)",
+                      space="D%d" % i, cells=list(d.cells), bases=[b.fullname for b in d.bases])
+            except DeletedObjectError:
+                V("handle-dead", "a space deriving from a deleted space raises the deleted-object error", space="D%d" % i)
+    cnt["graph_scans"] += 1
+    for nd in list(m.tracegraph.nodes):
+        impl = nd[0]
+        if impl.interface._impl is not impl:
+            V("graph-deleted", "the dependency graph mentions an element of a deleted object (after del_space)",
+              node=repr(nd)[:100])
+            break
+    sn = sanity(m)
+    if sn and not vio:
+        V("sanity", "library self-check failed after del_space", probs=sn[:3])
+    return {"violations": vio, "counters": cnt, "nontrivial": True, "shape": "tree-%r-%d" % (case["shape"], tgt),
+            "matrix": {"tree deletion: nodes in tree": {str(len(nodes)): 1}}}
+
+
 def run_case(case):
+    if case.get("kind") == "tree":
+        return run_tree(case)
     case = expand(case)
     if "directed" in case:
         from . import c12
@@ -360,7 +506,7 @@ def _n(v):
 
 
 def shrink(case, violations, deadline):
-    if "directed" in case:
+    if "directed" in case or case.get("kind") == "tree":
         return None
     from ..shrink import shrink_ops
     return shrink_ops(expand(case), run_case, violations, deadline)
